@@ -1,12 +1,14 @@
 """C05 — bucket lifecycle behaves as a keyed map (decidable clauses)."""
 import ast
 
+from ..rules_wrap import wrapper_rules
+
 from ..rules_commit import check_no_rollback
 from ..rules_own import own_rules
 
 from ..cfg import cfg_of, membership
 from ..model import norm, parent, walk_own, walk_with_nested_exprs
-from ..rules_store import bparam, is_param_ref, memory_containers
+from ..rules_store import instance_state, bparam, is_param_ref, memory_containers
 from ..sqlmodel import local_defs, peewee_chains, single_def, sql_sites
 
 ME = "aw_datastore/storages/memory.py"
@@ -465,10 +467,12 @@ def check(prog, rep):
     )
     rep.trusted_base = ["SQL / peewee semantics of the modelled statements", "C04's SCOPE rule for the scoping of the deletes"]
     rep.not_decided = ["histories: stale handles, re-creation races", "equality of returned metadata values (e.g. the creation instant's text form)"]
+    instance_state(prog, rep)
     field_tables(prog, rep)
     guarded_updates(prog, rep)
     delete_coverage(prog, rep)
     caches_follow(prog, rep)
+    wrapper_rules(prog, rep)
     container_eviction(prog, rep)
     not_found(prog, rep)
     # what create/update stored is what describe/list report: the store keeps its own copy of the metadata
